@@ -4,6 +4,32 @@ import json, os, subprocess
 V = os.path.dirname(os.path.dirname(os.path.abspath(__file__)))
 
 CHECKS = {
+    "C03": dict(
+        text="Coq theorems over executable mirrors of Metainfo::piece_length / file_piece_ranges and Extractor::extract_files "
+             "(piece store as a partial function from hashes, File::open / read_exact failures and index panics as explicit "
+             "outcomes): for every geometry whose piece count matches its total length the per-piece lengths partition the "
+             "content exactly (C03_partition), and extraction from a store of those pieces yields, for every listed file in "
+             "order, exactly the bytes at its offset, with exactly its declared length (C03_extract, C03_lengths) - any number "
+             "of files, zero-length files, files inside one piece, any alignment; proved by induction over the file list and "
+             "the piece loop with slice-concatenation lemmas. The pinned extractor is refuted (C03_pinned_refuted); the defect "
+             "was found by the check and repaired by a fix: commit. Tie: the real Extractor runs on a piece store built from "
+             "the content; every output file is read back and compared with the model and with the independent span oracle.",
+        note="Not modelled: real file-system errors, concurrent modification, duplicate output paths (later write wins). "
+             "Trusted: Coq kernel, correspondence harness, hand-written model. No axioms.",
+        technique="Coq proof (induction over files and pieces, slice algebra) + differential correspondence on the real extractor",
+        design="2/C03"),
+    "C04": dict(
+        text="Coq theorems over the lexical path model (PathBuf::join, Path::components, parent chain) and the Metainfo model: "
+             "every accepted document has a relative name and relative file paths without '..' components "
+             "(C04_accepted_safe), join keeps the components of the directory in front (C04_join_components), so every path "
+             "the extractor creates, and every ancestor create_dir_all makes, never climbs above the download directory at "
+             "any prefix (C04_inside, C04_ancestors_safe). The pinned code is refuted (C04_pinned_refuted); the defect was "
+             "found by the check (files written above cwd) and repaired by a fix: commit. Tie: the real extractor runs five "
+             "levels below a canary root with hostile names/paths; everything created is listed; oracle = containment.",
+        note="Partial: lexical Unix path model; symlinks already present in the download directory and non-Unix path syntax "
+             "are not modelled. No axioms.",
+        technique="Coq proof (induction over path components) + differential correspondence with file-system canary oracle",
+        design="2/C04"),
     "C05": dict(
         text="Executable Gallina mirrors of DeepFinder::find_first and Metainfo::from_bencode, and an independent "
              "span-splitting specification (InfoSpec.info_span) of `the exact bytes of the top-level info value`. Proved: "
